@@ -8,27 +8,48 @@ CACHE = None
 
 
 def build(repo, verif, workdir, log):
-    """returns path of the twin binary or raises RuntimeError"""
+    """returns path of the twin binary or raises RuntimeError.
+
+    The crate under test is copied to a FIXED path per property (.cache/twin-<key>/repo) so that cargo rebuilds it in
+    place: a path dependency at a fresh temporary path would be a new crate for cargo on every run and the target
+    directory would grow without bound.  A lock file serialises concurrent builds for the same key."""
+    import fcntl
+    key = os.path.basename(workdir).split("-")[0] or "x"
+    base = os.path.join(verif, ".cache", "twin-" + key)
+    os.makedirs(base, exist_ok=True)
+    lockf = open(os.path.join(base, ".lock"), "w")
+    fcntl.flock(lockf, fcntl.LOCK_EX)
+    _LOCKS.append(lockf)  # held until the process exits (build + searches + replay)
     src = os.path.join(verif, "twin")
-    dst = os.path.join(workdir, "twin")
-    if os.path.exists(dst):
-        shutil.rmtree(dst)
+    dst = os.path.join(base, "twin")
+    rcopy = os.path.join(base, "repo")
+    for d in (dst, rcopy):
+        if os.path.exists(d):
+            shutil.rmtree(d)
     shutil.copytree(src, dst, ignore=shutil.ignore_patterns("target", "Cargo.toml.in"))
     repo = os.path.abspath(repo)
-    open(os.path.join(dst, "Cargo.toml"), "w").write(open(os.path.join(src, "Cargo.toml.in")).read().replace("@REPO@", repo))
+    os.makedirs(rcopy)
+    shutil.copytree(os.path.join(repo, "src"), os.path.join(rcopy, "src"))
+    toml = open(os.path.join(repo, "Cargo.toml")).read()
+    toml = re.sub(r"\[\[bench\]\][^\[]*", "", toml)
+    open(os.path.join(rcopy, "Cargo.toml"), "w").write(toml)
+    open(os.path.join(dst, "Cargo.toml"), "w").write(open(os.path.join(src, "Cargo.toml.in")).read().replace("@REPO@", rcopy))
     m = os.path.join(dst, "src", "main.rs")
-    txt = open(m).read().replace("@REPO@", repo)
+    txt = open(m).read().replace("@REPO@", rcopy)
     open(m, "w").write(txt)
     for f in ("Cargo.lock", "rust-toolchain.toml"):
         if os.path.exists(os.path.join(repo, f)):
             shutil.copy(os.path.join(repo, f), dst)
-    target = os.path.join(verif, ".cache", "twin-target")
+    target = os.path.join(base, "target")
     os.makedirs(target, exist_ok=True)
     env = dict(os.environ, CARGO_TARGET_DIR=target, CARGO_NET_OFFLINE="true", RUSTFLAGS="-Awarnings")
     p = subprocess.run(["cargo", "build", "--offline", "-q"], cwd=dst, env=env, capture_output=True, text=True, timeout=900)
     if p.returncode != 0:
         raise RuntimeError("twin build failed: " + p.stderr[-1500:])
     return os.path.join(target, "debug", "twin")
+
+
+_LOCKS = []
 
 
 def run(binary, args, timeout=300, crit="bytes"):
